@@ -208,7 +208,7 @@ def _case(seed: int) -> Dict[str, Any]:
 
     from hv import cpgen, rt
 
-    evs = cpgen.gen_cp_events(seed, n_steps=3, n_streams=1 + seed % 3, annotations=bool(seed % 2), n_threads=2 if seed % 4 == 1 else 1, frac_kernels=(seed % 4 == 2))
+    evs = cpgen.gen_cp_events(seed, n_steps=3, n_streams=1 + seed % 3, annotations=bool(seed % 2), n_threads=2 if seed % 4 == 1 else 1, frac_kernels=(seed % 4 == 2), old_nccl=(seed % 3 == 1))
     inst = 0 if seed % 2 else (0, 1)
     fails: List[Dict[str, Any]] = []
     inp = {"seed": seed, "instance_id": inst, "events": {0: evs}}
